@@ -91,6 +91,65 @@ def sym_calcsize(fmt):
     return _rcalcsize(fmt)
 
 
+_runpack_from = _struct.unpack_from
+_rStruct = _struct.Struct
+
+
+def sym_unpack_from(fmt, buffer, offset=0):
+    if not _real_isinstance(buffer, SBytes):
+        return _runpack_from(fmt, buffer, offset)
+    if buffer.is_concrete():
+        return _runpack_from(fmt, bytes(buffer.items), offset)
+    if _real_isinstance(offset, (SymInt, SymBool)):
+        offset = offset.__index__()
+    need = _rcalcsize(fmt)
+    n = _real_len(buffer)
+    if offset < 0:
+        if offset + n < 0:
+            raise _struct.error("offset %d out of range for %d-byte buffer" % (offset, n))
+        offset += n
+    if n - offset < need:
+        raise _struct.error("unpack_from requires a buffer of at least %d bytes for unpacking %d bytes at offset %d "
+                            "(actual buffer size is %d)" % (offset + need, need, offset, n))
+    return sym_unpack(fmt, SBytes(buffer.items[offset:offset + need], False))
+
+
+class SymStruct:
+    """struct.Struct stand-in: delegates to the real object on concrete data"""
+
+    def __init__(self, format):
+        self._real = _rStruct(format)
+        self.format = self._real.format
+        self.size = self._real.size
+
+    def pack(self, *vals):
+        return sym_pack(self.format, *vals)
+
+    def unpack(self, data):
+        return sym_unpack(self.format, data)
+
+    def unpack_from(self, buffer, offset=0):
+        return sym_unpack_from(self.format, buffer, offset)
+
+    def iter_unpack(self, buffer):
+        if _real_isinstance(buffer, SBytes):
+            raise EngineLimit("Struct.iter_unpack on symbolic data")
+        return self._real.iter_unpack(buffer)
+
+    def pack_into(self, buffer, offset, *vals):
+        if _real_isinstance(buffer, SBytes) or any(_real_isinstance(v, (SymInt, SymBool)) for v in vals):
+            bs = sym_pack(self.format, *vals)
+            buffer[offset:offset + self.size] = bs
+            return None
+        return self._real.pack_into(buffer, offset, *vals)
+
+
+def preinstall():
+    """must run before spacepackets is imported: module-level struct.Struct tables then hold the stand-in"""
+    _struct.Struct = SymStruct
+    _struct.unpack_from = sym_unpack_from
+
+
 # --------------------------------------------------------------------------- CRC-16/CCITT-FALSE on affine forms
 import crcmod.predefined as _cp
 _real_crc = _cp.mkPredefinedCrcFun("crc-ccitt-false")
@@ -192,6 +251,7 @@ def install():
         return
     import_all()
     _struct.pack, _struct.unpack = sym_pack, sym_unpack
+    _struct.unpack_from = sym_unpack_from
     _enum.EnumType.__call__ = _enum_call
     from .sbytes import SymInt as _SI
     _SI.__hash__ = lambda self: sym_hash(self)
@@ -218,6 +278,7 @@ def uninstall():
     if not _installed:
         return
     _struct.pack, _struct.unpack = _rpack, _runpack
+    _struct.unpack_from = _runpack_from
     _enum.EnumType.__call__ = _real_enum_call
     for d, k, v in reversed(_saved):
         if v is _MISSING:
